@@ -37,6 +37,17 @@ static int count_fds()
     return n;
 }
 
+// long payloads are logged as length + polynomial hash (H(a++b) = H(a)*B^|b| + H(b) mod 2^61-1), so that
+// consecutive writes can be merged on the Python side without shipping the bytes
+static std::string payload_token(const char *tag, std::string_view b)
+{
+    if (b.size() <= 64) return std::string(tag) + ":" + hex(b);
+    const unsigned long long M = (1ULL << 61) - 1, B = 1000003ULL;
+    unsigned long long h = 0;
+    for (unsigned char c : b) h = (unsigned long long)(((unsigned __int128)h * B + c) % M);
+    return std::string(tag) + "#" + std::to_string(b.size()) + ":" + std::to_string(h);
+}
+
 struct rec_observer : observer
 {
     int id;
@@ -71,7 +82,7 @@ struct rec_sink : output_stream
     long fail_at = -1; long writes = 0;
     void write(char *buf, std::size_t size) override
     {
-        logtok("sw:" + hex(std::string_view(buf, size)));
+        logtok(payload_token("sw", std::string_view(buf, size)));
         if (fail_at >= 0 && writes == fail_at) throw ftp_exception("Cannot write stream.");
         writes++;
     }
